@@ -138,7 +138,7 @@ func (hc *TopNCollector) Collect(ctx context.Context, aggs search.Aggregations,
 	searchContext := search.NewSearchContext(hc.backingSize+searcher.DocumentMatchPoolSize(), len(hc.sort))
 
 	// add fields needed by aggregations
-	hc.neededFields = append(hc.neededFields, aggs.Fields()...)
+	hc.neededFields = uniqueFields(append(hc.neededFields, aggs.Fields()...))
 	bucket := search.NewBucket("", aggs)
 
 	var hitNumber int
@@ -186,6 +186,23 @@ func (hc *TopNCollector) Collect(ctx context.Context, aggs search.Aggregations,
 		err:     nil,
 	}
 	return rv, nil
+}
+
+// uniqueFields removes repeated field names, keeping the first occurrence.
+// Document values are loaded once per mention of a field, so a field named
+// by several aggregations (or by the sort order and an aggregation) would
+// otherwise have every value delivered several times.
+func uniqueFields(fields []string) []string {
+	seen := make(map[string]struct{}, len(fields))
+	rv := fields[:0:0]
+	for _, field := range fields {
+		if _, ok := seen[field]; ok {
+			continue
+		}
+		seen[field] = struct{}{}
+		rv = append(rv, field)
+	}
+	return rv
 }
 
 func (hc *TopNCollector) collectSingle(ctx *search.Context, d *search.DocumentMatch, bucket *search.Bucket) error {
